@@ -1,0 +1,177 @@
+//go:build verif
+
+// Contracts for the govc verifier (comment-only; see /verif/DESIGN.md).
+// This file contains no code. It is read as text by /verif/bin/govc.
+
+package litonlylzma
+
+//@ default mode int
+
+// Potential of a range decoder: every decoded bit lowers it by at least
+// 31 * 2^13 = 253952, so the output is bounded by a fixed multiple of the input.
+//@ spec phi(r *rangeDecoder) mathint = 4294967296 * math(len(r.src)) + math(r.width)
+//@ spec probOK(p prob) bool = 31 <= p && p <= 2017
+//@ spec decOK(r *rangeDecoder) bool = r != nil && r.width >= 16777216
+
+//@ func (*prob).decodeBit
+//@   prop C17
+//@   wraps shl sub
+//@   requires p != nil && probOK(*p) && decOK(rDec) && !sameobj(p, rDec)
+//@   ensures probOK(*p) && bitValue <= 1
+//@   ensures implies(retErr == nil, decOK(rDec) && phi(rDec) + 253952 <= old(phi(rDec)))
+//@   ensures[suffix] base(rDec.src) == old(base(rDec.src)) && off(rDec.src) + len(rDec.src) == old(off(rDec.src) + len(rDec.src)) && len(rDec.src) <= old(len(rDec.src)) && off(rDec.src) + cap(rDec.src) == old(off(rDec.src) + cap(rDec.src))
+//@   modifies *p, rDec.bits, rDec.width, rDec.src
+
+//@ spec bpOK(p *byteProbs) bool = p != nil && forall(k, 0, 256, probOK(p[k]))
+//@ spec sufOK(r *rangeDecoder, b []byte) bool = base(r.src) == base(b) && off(r.src) + len(r.src) == off(b) + len(b) && off(r.src) >= off(b) && off(r.src) + cap(r.src) == off(b) + cap(b)
+
+//@ func (*byteProbs).decodeByte
+//@   prop C17
+//@   requires bpOK(p) && decOK(rDec) && !sameobj(p, rDec)
+//@   ensures bpOK(p)
+//@   ensures implies(retErr == nil, decOK(rDec) && phi(rDec) + 8*253952 <= old(phi(rDec)))
+//@   ensures[suffix] base(rDec.src) == old(base(rDec.src)) && off(rDec.src) + len(rDec.src) == old(off(rDec.src) + len(rDec.src)) && len(rDec.src) <= old(len(rDec.src)) && off(rDec.src) + cap(rDec.src) == old(off(rDec.src) + cap(rDec.src))
+//@   modifies mem(p), rDec.bits, rDec.width, rDec.src
+//@   loop 1 invariant 1 <= index && index < 512 && bpOK(p) && decOK(rDec)
+//@   loop 1 invariant base(rDec.src) == old(base(rDec.src)) && off(rDec.src) + len(rDec.src) == old(off(rDec.src) + len(rDec.src)) && len(rDec.src) <= old(len(rDec.src)) && off(rDec.src) + cap(rDec.src) == old(off(rDec.src) + cap(rDec.src))
+//@   loop 1 invariant implies(index < 2, phi(rDec) <= old(phi(rDec))) && implies(2 <= index && index < 4, phi(rDec) + 253952 <= old(phi(rDec))) && implies(4 <= index && index < 8, phi(rDec) + 2*253952 <= old(phi(rDec))) && implies(8 <= index && index < 16, phi(rDec) + 3*253952 <= old(phi(rDec))) && implies(16 <= index && index < 32, phi(rDec) + 4*253952 <= old(phi(rDec))) && implies(32 <= index && index < 64, phi(rDec) + 5*253952 <= old(phi(rDec))) && implies(64 <= index && index < 128, phi(rDec) + 6*253952 <= old(phi(rDec))) && implies(128 <= index && index < 256, phi(rDec) + 7*253952 <= old(phi(rDec))) && implies(256 <= index, phi(rDec) + 8*253952 <= old(phi(rDec)))
+//@   loop 1 decreases 512 - index
+
+//@ func setProbsToOneHalf
+//@   prop C17
+//@   ensures forall(k, 0, len(p), p[k] == 1024)
+//@   modifies mem(p)
+//@   loop 1 invariant -1 <= rangeindex && rangeindex <= len(p) && forall(k, 0, rangeindex + 1, p[k] == 1024)
+//@   loop 1 decreases len(p) - rangeindex
+
+//@ func decodeUvarint
+//@   prop C17
+//@   wraps shl
+//@   pure
+//@   ensures base(remainingSrc) == base(src) && off(remainingSrc) + len(remainingSrc) == off(src) + len(src) && off(remainingSrc) >= off(src) && off(remainingSrc) + cap(remainingSrc) == off(src) + cap(src)
+//@   loop 1 invariant i <= 63 && i % 7 == 0 && base(src) == old(base(src)) && off(src) + len(src) == old(off(src) + len(src)) && off(src) >= old(off(src)) && off(src) + cap(src) == old(off(src) + cap(src))
+//@   loop 1 decreases 70 - i
+
+// decodeRaw: every literal costs 9 decoded bits, each lowering the potential by
+// >= 253952: the output is at most (2^32 / 2285568) < 1880 times the input.
+//@ func decodeRaw
+//@   prop C17
+//@   wraps add
+//@   requires errUnsupported != nil
+//@   modifies mem(dst)
+//@   ensures[consumed] implies(retErr == nil, 2285568 * (math(len(appendedDst)) - math(len(dst))) + 4 * 4294967296 <= 4294967296 * (math(len(src)) - math(len(remainingSrc))))
+//@   ensures[outputbound] 2285568 * (math(len(appendedDst)) - math(len(dst))) <= 4294967296 * math(len(src))
+//@   ensures[grows] len(appendedDst) >= len(dst) && (base(appendedDst) == base(dst) || fresh(base(appendedDst)))
+//@   ensures[suffix] base(remainingSrc) == base(src) && off(remainingSrc) + len(remainingSrc) == off(src) + len(src) && off(remainingSrc) >= off(src) && off(remainingSrc) + cap(remainingSrc) == off(src) + cap(src)
+//@   loop 1 invariant -1 <= rangeindex && rangeindex <= 8 && forall(a, 0, rangeindex + 1, forall(k, 0, 256, litProbs[a][k] == 1024)) && forall(k, 0, 4, posProbs[k] == 1024)
+//@   loop 1 invariant decOK(rDec) && sufOK(rDec, src) && len(rDec.src) == len(src) - 5 && rDec.width == 4294967295 && sameslice(dst, old(dst))
+//@   loop 1 decreases 8 - rangeindex
+//@   loop 2 invariant decOK(rDec) && sufOK(rDec, src) && forall(k, 0, 4, probOK(posProbs[k])) && forall(a, 0, 8, forall(k, 0, 256, probOK(litProbs[a][k])))
+//@   loop 2 invariant len(dst) >= old(len(dst)) && 2285568 * (math(len(dst)) - math(old(len(dst)))) + phi(rDec) <= 4294967296 * (math(len(src)) - 5) + 4294967295
+//@   loop 2 invariant base(dst) == old(base(dst)) || fresh(base(dst))
+//@   loop 2 decreases size
+
+//@ func decodeLZMA
+//@   prop C17
+//@   wraps shl
+//@   modifies mem(dst)
+//@   ensures[outputbound] 2285568 * (math(len(appendedDst)) - math(len(dst))) <= 4294967296 * math(len(src))
+//@   ensures[grows] len(appendedDst) >= len(dst)
+//@   loop 1 invariant 0 <= i && i <= 8 && len(src) >= 18
+//@   loop 1 decreases 8 - i
+
+// decodeXz: the output grows only through uncompressed chunks (at most the
+// bytes consumed) and LZMA chunks (bounded by decodeRaw), so the same multiple holds.
+//@ func decodeXz
+//@   prop C17
+//@   modifies mem(dst)
+//@   ensures[outputbound] 2285568 * (math(len(appendedDst)) - math(len(dst))) <= 4294967296 * math(len(src))
+//@   ensures[grows] len(appendedDst) >= len(dst)
+//@   loop 1 invariant (base(dst) == old(base(dst)) || fresh(base(dst))) && originalSrcLen == old(len(src)) && originalDstLen == old(len(dst)) && len(src) + 24 <= originalSrcLen && len(dst) >= originalDstLen
+//@   loop 1 invariant 2285568 * (math(len(dst)) - math(originalDstLen)) <= 4294967296 * (math(originalSrcLen) - math(len(src)))
+//@   loop 1 decreases len(src)
+//@   loop 2 invariant (base(dst) == old(base(dst)) || fresh(base(dst))) && originalSrcLen == old(len(src)) && originalDstLen == old(len(dst)) && len(src) + 24 <= originalSrcLen && len(dst) >= originalDstLen && i <= 4
+//@   loop 2 invariant 2285568 * (math(len(dst)) - math(originalDstLen)) <= 4294967296 * (math(originalSrcLen) - math(len(src)))
+//@   loop 2 decreases 4 - i
+//@   loop 3 invariant (base(dst) == old(base(dst)) || fresh(base(dst))) && originalSrcLen == old(len(src)) && originalDstLen == old(len(dst)) && len(dst) >= originalDstLen && 0 <= i && i <= 4 && len(src) <= len(srcCheckpoint1) && base(src) == base(srcCheckpoint1) && off(src) + len(src) == off(srcCheckpoint1) + len(srcCheckpoint1) && off(src) + cap(src) == off(srcCheckpoint1) + cap(srcCheckpoint1)
+//@   loop 3 invariant 2285568 * (math(len(dst)) - math(originalDstLen)) <= 4294967296 * math(originalSrcLen)
+//@   loop 3 decreases 4 - i
+
+//@ func (FileFormat).Decode
+//@   prop C17
+//@   modifies mem(dst)
+//@   ensures[outputbound] implies(appendedDst != nil, 2285568 * (math(len(appendedDst)) - math(len(dst))) <= 4294967296 * math(len(src)))
+
+// ---- encoder: memory safety, range-coder state invariants, termination ----
+
+//@ spec encOK(r *rangeEncoder) bool = r != nil && r.width >= 16777216 && r.low < 4294967296
+//@ spec dstOK(r *rangeEncoder, b []byte) bool = base(r.dst) == base(b) || fresh(base(r.dst))
+
+//@ func (*rangeEncoder).shiftLow
+//@   prop C17
+//@   requires rEnc.low < 8589934592
+//@   ensures rEnc.low < 4294967296 && unchanged(rEnc.width) && len(rEnc.dst) >= old(len(rEnc.dst)) && (base(rEnc.dst) == old(base(rEnc.dst)) || fresh(base(rEnc.dst)))
+//@   modifies rEnc.dst, rEnc.low, rEnc.pendingHead, rEnc.pendingExtra, mem(rEnc.dst)
+//@   wraps add
+//@   loop 1 invariant rEnc.low < 4278190080 && unchanged(rEnc.width) && unchanged(rEnc.low) && len(rEnc.dst) >= old(len(rEnc.dst)) && (base(rEnc.dst) == old(base(rEnc.dst)) || fresh(base(rEnc.dst)))
+//@   loop 1 decreases rEnc.pendingExtra
+//@   loop 2 invariant rEnc.low >= 4294967296 && unchanged(rEnc.width) && unchanged(rEnc.low) && len(rEnc.dst) >= old(len(rEnc.dst)) && (base(rEnc.dst) == old(base(rEnc.dst)) || fresh(base(rEnc.dst)))
+//@   loop 2 decreases rEnc.pendingExtra
+
+//@ func (*prob).encodeBit
+//@   prop C17
+//@   requires p != nil && probOK(*p) && encOK(rEnc) && bitValue <= 1 && !sameobj(p, rEnc)
+//@   ensures probOK(*p) && encOK(rEnc) && len(rEnc.dst) >= old(len(rEnc.dst)) && (base(rEnc.dst) == old(base(rEnc.dst)) || fresh(base(rEnc.dst)))
+//@   modifies *p, rEnc.dst, rEnc.low, rEnc.width, rEnc.pendingHead, rEnc.pendingExtra, mem(rEnc.dst)
+
+//@ func (*byteProbs).encodeByte
+//@   prop C17
+//@   requires bpOK(p) && encOK(rEnc) && !sameobj(p, rEnc)
+//@   ensures bpOK(p) && encOK(rEnc) && len(rEnc.dst) >= old(len(rEnc.dst)) && (base(rEnc.dst) == old(base(rEnc.dst)) || fresh(base(rEnc.dst)))
+//@   modifies mem(p), rEnc.dst, rEnc.low, rEnc.width, rEnc.pendingHead, rEnc.pendingExtra, mem(rEnc.dst)
+//@   loop 1 invariant -1 <= i && i <= 7 && 1 <= index && bpOK(p) && encOK(rEnc) && len(rEnc.dst) >= old(len(rEnc.dst)) && (base(rEnc.dst) == old(base(rEnc.dst)) || fresh(base(rEnc.dst)))
+//@   loop 1 invariant implies(i == 7, index < 2) && implies(i == 6, index < 4) && implies(i == 5, index < 8) && implies(i == 4, index < 16) && implies(i == 3, index < 32) && implies(i == 2, index < 64) && implies(i == 1, index < 128) && implies(i == 0, index < 256) && implies(i == -1, index < 512)
+//@   loop 1 decreases i + 1
+
+//@ func encodeUvarint
+//@   prop C17
+//@   ensures len(result) > len(dst) && (base(result) == base(dst) || fresh(base(result)))
+//@   modifies mem(dst)
+//@   loop 1 invariant len(dst) >= old(len(dst)) && (base(dst) == old(base(dst)) || fresh(base(dst)))
+//@   loop 1 decreases x
+
+//@ func encodeRaw
+//@   prop C17
+//@   ensures len(appendedDst) >= len(dst) && (base(appendedDst) == base(dst) || fresh(base(appendedDst)))
+//@   modifies mem(dst)
+//@   wraps add
+//@   loop 1 invariant -1 <= rangeindex_1 && rangeindex_1 <= 8 && forall(a, 0, rangeindex_1 + 1, forall(k, 0, 256, litProbs[a][k] == 1024)) && forall(k, 0, 4, posProbs[k] == 1024)
+//@   loop 1 invariant encOK(rEnc) && sameslice(rEnc.dst, dst) && rEnc.low == 0
+//@   loop 1 decreases 8 - rangeindex_1
+//@   loop 2 invariant -1 <= rangeindex_2 && rangeindex_2 <= len(src) && encOK(rEnc) && forall(k, 0, 4, probOK(posProbs[k])) && forall(a, 0, 8, forall(k, 0, 256, probOK(litProbs[a][k])))
+//@   loop 2 invariant len(rEnc.dst) >= len(dst) && (base(rEnc.dst) == base(dst) || fresh(base(rEnc.dst)))
+//@   loop 2 decreases len(src) - rangeindex_2
+//@   loop 3 invariant 0 <= i && i <= 5 && rEnc.low < 4294967296 && len(rEnc.dst) >= len(dst) && (base(rEnc.dst) == base(dst) || fresh(base(rEnc.dst)))
+//@   loop 3 decreases 5 - i
+
+//@ func encodeLZMA
+//@   prop C17
+//@   ensures retErr == nil && len(appendedDst) >= len(dst) + 13
+//@   modifies mem(dst)
+//@   loop 1 invariant 0 <= i && i <= 8 && len(dst) == old(len(dst)) + 5 + i && (base(dst) == old(base(dst)) || fresh(base(dst)))
+//@   loop 1 decreases 8 - i
+
+//@ func encodeXz
+//@   prop C17
+//@   ensures retErr == nil && len(appendedDst) >= len(dst) + 24
+//@   modifies mem(dst)
+//@   loop 1 invariant len(dst) >= dstLen0 + 12 && dstLen0 == old(len(dst)) + 12 && (base(dst) == old(base(dst)) || fresh(base(dst))) && len(remaining) <= len(src) && (isnil(base(rawLZMA)) || fresh(base(rawLZMA)))
+//@   loop 1 decreases len(remaining)
+//@   loop 2 invariant len(dst) >= dstLen0 + 12 && dstLen0 == old(len(dst)) + 12 && (base(dst) == old(base(dst)) || fresh(base(dst)))
+//@   loop 2 decreases 3 - ((len(dst) - dstLen0) % 4 + 3) % 4
+//@   loop 3 invariant len(dst) >= dstLen1 + 2 && dstLen1 >= dstLen0 + 12 && dstLen0 == old(len(dst)) + 12 && (base(dst) == old(base(dst)) || fresh(base(dst)))
+//@   loop 3 decreases 3 - ((len(dst) - dstLen1) % 4 + 3) % 4
+
+//@ func (FileFormat).Encode
+//@   prop C17
+//@   modifies mem(dst)
